@@ -29,6 +29,8 @@ def run(res, pool, tier, seed):
                 dict(module="MC_Pure.tla", tag="sim6", invariants=["Emit"], constants=consts(seed, 6, 1), timeout=3600, batch=50,
                      simulate="num=8000", depth=7, tlc_seed=seed + 5, workers=8, spec="SpecSim")]
     engine.run_jobs(res, jobs, pool)
+    import traces
+    traces.run_for(res, ["sessions"], {"C20"}, seed=seed + 12, nsessions=400 if tier == "quick" else 4000)
 
 
 def snap(x):
